@@ -100,6 +100,8 @@ type interpreter struct {
 	mon         *monitor
 	eng         *Engine
 	fnCount     map[*ssa.Function]int64
+	auditEvery  int
+	auditCount  int
 }
 
 type deferred struct {
@@ -141,7 +143,7 @@ func (fr *frame) get(key ssa.Value) value {
 	if r, ok := fr.env[key]; ok {
 		return r
 	}
-	panic(fmt.Sprintf("get: no value for %T: %v", key, key.Name()))
+	panic(engineFault(fmt.Sprintf("get: no value for %T: %v", key, key.Name())))
 }
 
 // runDefer runs a deferred call d.
@@ -346,7 +348,7 @@ func visitInstr(fr *frame, instr ssa.Instruction) continuation {
 			reserve = asInt64(fr.get(instr.Reserve))
 		}
 		if !fitsInt(reserve, fr.i.sizes) {
-			panic(fmt.Sprintf("ssa.MakeMap.Reserve value %d does not fit in int", reserve))
+			panic(engineFault(fmt.Sprintf("ssa.MakeMap.Reserve value %d does not fit in int", reserve)))
 		}
 		fr.env[instr] = makeMap(instr.Type().Underlying().(*types.Map).Key(), reserve)
 
@@ -432,7 +434,7 @@ func visitInstr(fr *frame, instr ssa.Instruction) continuation {
 		panic(abortPath{"inconclusive", "select not modelled"})
 
 	default:
-		panic(fmt.Sprintf("unexpected instruction: %T", instr))
+		panic(engineFault(fmt.Sprintf("unexpected instruction: %T", instr)))
 	}
 
 	// if val, ok := instr.(ssa.Value); ok {
@@ -454,11 +456,11 @@ func prepareCall(fr *frame, call *ssa.CallCommon) (fn value, args []value) {
 		// Interface method invocation.
 		recv := v.(iface)
 		if recv.t == nil {
-			panic("method invoked on nil interface")
+			panic(runtimePanic(fr.i, "invalid memory address or nil pointer dereference"))
 		}
 		if f := lookupMethod(fr.i, recv.t, call.Method); f == nil {
 			// Unreachable in well-typed programs.
-			panic(fmt.Sprintf("method set for dynamic type %v does not contain %s", recv.t, call.Method))
+			panic(engineFault(fmt.Sprintf("method set for dynamic type %v does not contain %s", recv.t, call.Method)))
 		} else {
 			fn = f
 		}
@@ -477,7 +479,7 @@ func call(i *interpreter, caller *frame, callpos token.Pos, fn value, args []val
 	switch fn := fn.(type) {
 	case *ssa.Function:
 		if fn == nil {
-			panic("call of nil function") // nil of func type
+			panic(runtimePanic(i, "invalid memory address or nil pointer dereference"))
 		}
 		return callSSA(i, caller, callpos, fn, args, nil)
 	case *closure:
@@ -485,7 +487,7 @@ func call(i *interpreter, caller *frame, callpos token.Pos, fn value, args []val
 	case *ssa.Builtin:
 		return callBuiltin(caller, callpos, fn, args)
 	}
-	panic(fmt.Sprintf("cannot call %T", fn))
+	panic(engineFault(fmt.Sprintf("cannot call %T", fn)))
 }
 
 func loc(fset *token.FileSet, pos token.Pos) string {
@@ -529,7 +531,7 @@ func callSSA(i *interpreter, caller *frame, callpos token.Pos, fn *ssa.Function,
 			}
 			panic(abortPath{"inconclusive", "unmodelled external " + name})
 		}
-		if deny := deniedPkgs[pkgPathOf(fn)]; deny {
+		if deny := deniedPkgs[pkgPathOf(fn)]; deny && !allowedFns[name] {
 			if fn.Name() == "init" && fn.Signature.Recv() == nil {
 				return nil
 			}
@@ -540,7 +542,7 @@ func callSSA(i *interpreter, caller *frame, callpos token.Pos, fn *ssa.Function,
 
 	// generic function body?
 	if fn.TypeParams().Len() > 0 && len(fn.TypeArgs()) == 0 {
-		panic("interp requires ssa.BuilderMode to include InstantiateGenerics to execute generics")
+		panic(engineFault("interp requires ssa.BuilderMode to include InstantiateGenerics to execute generics"))
 	}
 
 	fr.env = make(map[ssa.Value]value)
@@ -690,7 +692,7 @@ func doRecover(caller *frame) value {
 		case nil:
 			return iface{}
 		default:
-			panic(fmt.Sprintf("unexpected panic type %T in target call to recover()", p))
+			panic(engineFault(fmt.Sprintf("unexpected panic type %T in target call to recover()", p)))
 		}
 	}
 	return iface{}
